@@ -133,3 +133,24 @@ Lemma drop_drop {A} i m (l : list A) : 0 <= i -> 0 <= m -> drop m (drop i l) = d
 Proof.
   intros. unfold drop. rewrite skipn_skipn_add. f_equal. lia.
 Qed.
+
+Lemma Forall_firstn {A} (P : A -> Prop) n (l : list A) : Forall P l -> Forall P (firstn n l).
+Proof.
+  revert l; induction n as [|n IH]; intros l H; cbn [firstn]; [constructor|].
+  destruct l as [|x l]; [constructor|]. inversion H; subst. constructor; auto.
+Qed.
+
+Lemma Forall_skipn {A} (P : A -> Prop) n (l : list A) : Forall P l -> Forall P (skipn n l).
+Proof.
+  revert l; induction n as [|n IH]; intros l H; cbn [skipn]; [exact H|].
+  destruct l as [|x l]; [constructor|]. inversion H; subst. auto.
+Qed.
+
+Lemma bytes_ok_firstn n bs : bytes_ok bs -> bytes_ok (firstn n bs).
+Proof. apply Forall_firstn. Qed.
+Lemma bytes_ok_skipn n bs : bytes_ok bs -> bytes_ok (skipn n bs).
+Proof. apply Forall_skipn. Qed.
+Lemma bytes_ok_take n bs : bytes_ok bs -> bytes_ok (take n bs).
+Proof. apply Forall_firstn. Qed.
+Lemma bytes_ok_drop n bs : bytes_ok bs -> bytes_ok (drop n bs).
+Proof. apply Forall_skipn. Qed.
